@@ -589,6 +589,9 @@ func (c *Client) handleFetch(seqNum uint32) error {
 					}
 				case "BINARY":
 					part, dot := readSectionPart(dec)
+					if dec.Err() != nil {
+						return dec.Err()
+					}
 					if dot {
 						return fmt.Errorf("in section-binary: expected number after dot")
 					}
@@ -658,6 +661,9 @@ func (c *Client) handleFetch(seqNum uint32) error {
 				return dec.Err()
 			}
 			part, dot := readSectionPart(dec)
+			if dec.Err() != nil {
+				return dec.Err()
+			}
 			if dot {
 				return fmt.Errorf("in section-binary: expected number after dot")
 			}
@@ -1113,6 +1119,9 @@ func readSectionSpec(dec *imapwire.Decoder) (*imap.FetchItemBodySection, error) 
 
 	var dot bool
 	section.Part, dot = readSectionPart(dec)
+	if dec.Err() != nil {
+		return nil, dec.Err()
+	}
 	if dot || len(section.Part) == 0 {
 		var specifier string
 		if dot {
